@@ -142,6 +142,16 @@ def check(ctx, rep):
     for o in sub.obs:
         if o.rule == "R-CB-TOTAL":
             rep.ob("R-CB-TOTAL", o.key, o.ok, o.detail, o.where, o.trace)
+    # every with_map / with_flat_map / throttle / timeout layer passes outcomes on through the map future's table:
+    # value -> fn(value), failure -> the same exception object (error function: its result, or the exception it
+    # raised -- identity decides "the same"), cancelled -> cancelled (shared with C13)
+    from . import c13
+    sub13 = Report(rep.pid, ctx)
+    c13.check(ctx, sub13)
+    rep.rule("R-MAPTABLE", sub13.rules.get("R-TABLE", ""))
+    for o in sub13.obs:
+        if o.rule in ("R-TABLE", "R-DEFAULT", "R-PLUMB"):
+            rep.ob("R-MAPTABLE", o.key, o.ok, o.detail, o.where, o.trace)
 
 
 def _inline_policy(ci, records=()):
